@@ -19,7 +19,9 @@ KeyOf(e, hl) == <<e.t, e.perm, e.uid, e.gid,
                 \o (IF e.t = "dir" THEN <<>> ELSE <<e.size, e.mt>>)
 
 ViewKey(view, i) == KeyOf(view[i], view[i].hl)
-DstKey(dst, j) == KeyOf(dst[j], HLOf(dst, j))
+\* (a symlink that shares its inode with another name is still seen with its own target: the field that carries
+\* hard-link names carries the link target for symlinks)
+DstKey(dst, j) == KeyOf(dst[j], IF dst[j].t = "symlink" THEN <<>> ELSE HLOf(dst, j))
 DstKeyPlain(dst, j) == KeyOf(dst[j], <<>>)        \* seen as a plain file (exception)
 
 ChangedIdx(view, dst) ==
